@@ -159,17 +159,28 @@ def kani_groups(pid, tier):
 # ---- texts for MANIFEST.json -------------------------------------------------------------------------
 _V = 'Verus proves, for all inputs and with no bound, the contracts spliced onto the real function text extracted from /repo on every run; '
 LEVEL_TEXT = {
-    'C01': _V + 'owned obligations = every implicit panic obligation (arithmetic overflow, division by zero, shift range, index bounds, unwrap/callee preconditions) of eval_i64::ast and of all five parsers.',
-    'C02': _V + 'owned obligations = the decreases clauses of every loop and every (mutual) recursion of eval_i64::ast (eval, gcd, factorial, aggregate folds) and of all five parsers (measure: remaining tokens).',
-    'C03': _V + 'every Parser method of the five evaluators refines a table-driven specification parser (Ok iff the spec parser accepts and the whole stream is consumed); owned: parse (Eof), check_paren, argument-list methods, reject exits.',
-    'C04': _V + 'get_oper_prec equals the precedence table, generate_ast is precedence climbing with strict <, every binary / prefix / postfix / bracket arm builds the node and uses the operand level the tables give.',
-    'C06': _V + 'eval_i64::ast::eval returns the exact integer of the mathematical specification spec_eval or Err, for all trees; overflow obligations of every arithmetic arm are discharged.',
-    'C10': _V + 'arity and argument order of every function in all five parsers (refinement to the function table); exact integer functions of eval_i64 (abs, sgn, n!, mod, pow, exp2 mapping).',
-    'C11': _V + 'eval_i64 aggregates (min max avg med gcd lcm) for any arity against fold specifications over the sequence of argument values, error propagation; variadic argument lists and the empty-list policy in the four parsers that have them.',
-    'C12': _V + 'implicit_multiply, its call sites and parse (Eof) refine the juxtaposition rule of the specification parser (trigger sets, operand level Multiplicative, node order) in all five parsers.',
-    'C13': _V + 'the notation arms (floor/ceil brackets, mod/pow functions, superscripts, prefix +, redundant brackets) build the same nodes as their synonyms, by refinement to the tables, in all five parsers.',
-    'C14': _V + 'the `@` arm yields the leaf holding the stored placeholder and takes no part in implicit multiplication; Parser::new stores the placeholder; the eval_i64 leaf returns its payload.',
-    'C20': _V + 'a bracketed group is parsed from level DefaultZero independently of its context (sp_group); eval_i64::eval is a function of the children\'s values (its contract against spec_eval).',
+    'C01': _V + 'owned obligations = every implicit panic obligation (arithmetic overflow, division by zero, shift range, index bounds, unwrap / callee preconditions incl. the panic conditions of rust_decimal stated in its contract header) of '
+                'all five tokenizers, all five parsers, the five public wrappers, and the evaluators of eval_i64, eval_decimal and eval_complex; for eval_f64 and eval_number Kani proves one harness per constructor over fully symbolic leaves '
+                '(rustc overflow assertions and CBMC pointer / bounds checks on, all operand bit patterns). Two routines of eval_decimal are known findings.',
+    'C02': _V + 'owned obligations = the decreases clauses of every loop and every (mutual) recursion in the tokenizers (measure: characters left; every token consumes at least one), the parsers (measure: tokens left), '
+                'eval_i64 / eval_decimal / eval_complex (structural recursion, Euclid, factorial, the capped ilog of eval_decimal); for eval_f64 and eval_number Kani proves the explicit iteration caps of factorial (170), Lambert W (128) and ilog (64) '
+                'with unwinding assertions over the full operand domain. The global figure 4096 + 256*len is derived on paper from these per-function measures.',
+    'C03': _V + 'every Parser method of the five evaluators refines a table-driven specification parser (Ok iff the spec parser accepts and the whole token stream is consumed); the tokenizers yield Eof exactly at the end of input; '
+                'the public wrappers return Err iff the stripped text does not parse. Owned: parse (Eof), check_paren, argument-list methods, reject exits, wrapper.',
+    'C04': _V + 'get_oper_prec equals the precedence table, generate_ast is precedence climbing with strict <, every binary / prefix / postfix / bracket arm builds the node and uses the operand level the tables give; '
+                'Kani proves on the real derive that the derived order of OperatorCategory is the precedence order.',
+    'C06': _V + 'eval_i64::ast::eval returns the exact integer of the mathematical specification spec_eval or Err, for all trees; overflow obligations of every arithmetic arm are discharged; Kani cross-checks each arm with bit-vector semantics '
+                '(shifts as multiplication / floor division by 2^y) and supplies replayable counterexamples.',
+    'C10': _V + 'arity and argument order of every function in all five parsers (refinement to the function table); exact integer functions of eval_i64; the mapping of every function node to the rust_decimal / num_complex operation (headers); '
+                'Kani: every function arm of eval_f64 / eval_number / eval_i64 applies the named libm primitive once to the operands in the stated order (recording stubs), exact ones (abs, floor, ceil, trunc, round with ties away from zero, sgn(0)=0) bit-exactly.',
+    'C11': _V + 'eval_i64 aggregates (min max avg med gcd lcm) for any arity against fold specifications over the sequence of argument values, error propagation; variadic argument lists and the empty-list policy in the four parsers that have them; '
+                'eval_decimal aggregates: error propagation and panic-freedom; eval_f64 / eval_number: single-argument path only (Kani, bounded).',
+    'C12': _V + 'implicit_multiply, its call sites and parse (Eof) refine the juxtaposition rule of the specification parser (trigger sets, operand level Multiplicative, node order, no literal after a literal, no product at @ / constants / superscripts / degree signs) in all five parsers.',
+    'C13': _V + 'the notation arms (floor/ceil brackets, mod/pow functions, superscripts, prefix +, redundant brackets) build the same nodes as their synonyms, by refinement to the tables, in all five parsers; the public wrappers hand exactly '
+                'the whitespace-stripped text to the parser; the alias nodes apply the same primitive (Kani).',
+    'C14': _V + 'the `@` arm yields the leaf holding the stored placeholder and takes no part in implicit multiplication; Parser::new stores the placeholder; the wrappers pass Some(placeholder) and return the evaluator\'s value unchanged; '
+                'the leaf arm of every evaluator returns its payload bit for bit (Verus i64 / decimal / complex, Kani f64 / number).',
+    'C20': _V + 'a bracketed group is parsed from level DefaultZero independently of its context (sp_group); every evaluator is a function of its children\'s values: contract against spec_eval (i64, decimal, complex), per-constructor Kani steps (f64, number).',
 }
 LEVEL_TEXT['C18'] = ('Kani/CBMC proves two loop-free harnesses over the full input domain (all 2^64 doubles, all i64) that call the real, '
                      'unmodified Number::from and assert the exact characterisation of the property; a loop-free full-domain harness is a complete proof.')
